@@ -3,4 +3,4 @@ From Verif Require Import ClosureInst.
 Require Extraction ExtrOcamlBasic.
 Extraction Language OCaml.
 Extraction "model.ml" c_cfg cpp_cfg py_cfg include_list out_path outputs ns_outputs support_outputs py_imports
-  guard_c guard_cpp open_ns_cpp close_ns_cpp direct closed.
+  guard_c guard_cpp open_ns_cpp close_ns_cpp direct closed c_pod_selfsufficient q_union_live.
